@@ -8,28 +8,73 @@ From C20 Require Import Generated Model Proofs.
 Import ListNotations.
 Open Scope Z_scope.
 
-(* T20.once (per request): for ALL route dictionaries, handler behaviours (raising ones included), global
-   environments and requests: a request to a registered route runs that route's handler - the current definition of
-   the symbol it is bound to - exactly once with exactly the request's parameters, and the body is str(result); a
-   handler that raises gives the 400 answer; a path that was not registered (or whose handler was skipped: arity <> 1,
-   call object) runs nothing. *)
+(* T20.once (per request): for ALL route dictionaries, handler behaviours (failing ones included), global
+   environments and requests: a request to a registered route runs that route's handler - the CURRENT definition of
+   the symbol it is bound to, never the captured old one while the symbol is bound - exactly once with exactly the
+   request's parameters, and the body is str(result); a handler that fails is still run exactly once and gives the
+   400 answer; a path that was not registered (or whose handler was skipped: arity <> 1, call object) runs nothing.
+   Holds outside the known-finding class "the code fails with a Python KeyError" (KGFnWrapper swallows KeyError
+   raised by the CALL and then runs the captured function: C20_once_keyerror_refuted). The proof needs the regenerated
+   facts that KlongException and other classes are NOT swallowed (eq_refl below). *)
 Theorem C20_once_per_request : forall behav gets posts e q,
   NoDup (map fst gets) -> NoDup (map fst posts) ->
+  (forall b, behav b (q_params q) <> OFailKey) ->
   once_statement impl_rflags behav gets posts e q.
-Proof. exact (fun behav gets posts e q => serve_once impl_rflags behav gets posts e q (eq_refl : rf_capture impl_rflags = true)). Qed.
+Proof.
+  exact (fun behav gets posts e q Ng Np Hk =>
+    serve_once impl_rflags behav gets posts e q (eq_refl : rf_capture impl_rflags = true) Ng Np
+      (noswallow_impl impl_rflags behav (q_params q)
+         (eq_refl : rf_fb_klong impl_rflags = false) (eq_refl : rf_fb_other impl_rflags = false) Hk)).
+Qed.
 Print Assumptions C20_once_per_request.
 
 (* T20.once (histories): for request/redefinition sequences of ANY length the call log is, request by request, the
-   dictionary lookup of the spec: at most one entry per request, none for unknown paths. *)
+   dictionary lookup of the spec: at most one entry per request, none for unknown paths, one for a failing handler. *)
 Theorem C20_once_log : forall behav gets posts evs e,
   NoDup (map fst gets) -> NoDup (map fst posts) ->
+  (forall b p, behav b p <> OFailKey) ->
   snd (run_events impl_rflags behav (register impl_rflags gets posts) e evs) = spec_log impl_rflags gets posts e evs.
-Proof. exact (fun behav gets posts evs e Ng Np => log_once impl_rflags behav gets posts (eq_refl : rf_capture impl_rflags = true) Ng Np evs e). Qed.
+Proof.
+  exact (fun behav gets posts evs e Ng Np Hk =>
+    log_once impl_rflags behav gets posts (eq_refl : rf_capture impl_rflags = true) Ng Np
+      (fun p => noswallow_impl impl_rflags behav p
+         (eq_refl : rf_fb_klong impl_rflags = false) (eq_refl : rf_fb_other impl_rflags = false) (fun b => Hk b p)) evs e).
+Qed.
 Print Assumptions C20_once_log.
 
 Theorem C20_at_most_one_entry : forall gets posts e q, (length (spec_entry impl_rflags gets posts e q) <= 1)%nat.
 Proof. exact (spec_entry_le1 impl_rflags). Qed.
 Print Assumptions C20_at_most_one_entry.
+
+(* the full statement (no restriction on the failure class) is false for the code as it is ... *)
+Definition C20_once_full_statement : Prop := forall behav gets posts e q,
+  NoDup (map fst gets) -> NoDup (map fst posts) -> once_statement impl_rflags behav gets posts e q.
+Definition keyfb : rflags := mkRF true true true true true false false.
+Theorem C20_once_keyerror_refuted :
+  let h := HFn 1 (Some [104]) 1%nat in
+  let behav := fun (b : nat) (p : params) => if Nat.eqb b 1 then OOk (BNum 1) else OFailKey in
+  let q := mkReq GET [47] [] in
+  (* a named handler whose code fails with KeyError is run twice *)
+  serve keyfb (fun _ _ => OFailKey) (register keyfb [([47], h)] []) [([104], GFn 1 1%nat)] q
+    = (mkResp 400 (BText invalid), [(1%nat, []); (1%nat, [])]) /\
+  (* redefined into KeyError-failing code: the OLD code runs and answers 200 *)
+  serve keyfb behav (register keyfb [([47], h)] []) [([104], GFn 1 2%nat)] q
+    = (mkResp 200 (BNum 1), [(2%nat, []); (1%nat, [])]).
+Proof. vm_compute. split; reflexivity. Qed.
+
+(* ... and a wider except clause (KlongException too) extends the failure to every Klong-level error *)
+Definition klongfb : rflags := mkRF true true true true true true false.
+Theorem C20_once_klong_fallback_refuted :
+  let h := HFn 1 (Some [104]) 1%nat in
+  let behav := fun (b : nat) (p : params) => if Nat.eqb b 1 then OOk (BNum 1) else OFailKlong in
+  let q := mkReq GET [47] [] in
+  serve klongfb (fun _ _ => OFailKlong) (register klongfb [([47], h)] []) [([104], GFn 1 1%nat)] q
+    = (mkResp 400 (BText invalid), [(1%nat, []); (1%nat, [])]) /\
+  serve klongfb behav (register klongfb [([47], h)] []) [([104], GFn 1 2%nat)] q
+    = (mkResp 200 (BNum 1), [(2%nat, []); (1%nat, [])]) /\
+  serve good_rflags behav (register good_rflags [([47], h)] []) [([104], GFn 1 2%nat)] q
+    = (mkResp 400 (BText invalid), [(2%nat, [])]).
+Proof. vm_compute. repeat split; reflexivity. Qed.
 
 (* a request - in particular one whose handler fails - does not change any later response *)
 Theorem C20_failure_contained : forall behav rs e pre q post,
@@ -54,7 +99,7 @@ Proof. exact (fun gets posts => capture_binds_own impl_rflags gets posts (eq_ref
 Print Assumptions C20_capture.
 
 (* without the default-argument binding every route would run the LAST registered function *)
-Definition late : rflags := mkRF true true false true.
+Definition late : rflags := mkRF true true false true false false false.
 Theorem C20_capture_refuted_when_late_bound :
   let gets := [([47], HFn 1 None 1%nat); ([47; 97], HFn 1 None 2%nat)] in
   option_map r_h (find_route (register late gets []) GET [47]) = Some (HFn 1 None 2%nat) /\
@@ -98,7 +143,7 @@ Example C20_example :
   let h1 := HFn 1 (Some [104; 49]) 1%nat in let h2 := HFn 2 None 2%nat in
   let gets := [([47], h1); ([47; 97], h2); ([47; 98], HCall 1)] in
   let posts := [([47], HFn 1 None 3%nat)] in
-  let behav := fun (b : nat) (p : params) => if Nat.eqb b 3 then None else Some (BNum (Z.of_nat b)) in
+  let behav := fun (b : nat) (p : params) => if Nat.eqb b 3 then OFailKlong else OOk (BNum (Z.of_nat b)) in
   let q p m := mkReq m p [([107], [118])] in
   NoDup (map fst gets) /\
   run_events impl_rflags behav (register impl_rflags gets posts) []
